@@ -52,6 +52,21 @@ def leaf_regions(t):
     return regions
 
 
+def leaf_regions_from(t, start):
+    regions = {}
+
+    def walk(node, cons):
+        if t.children_left[node] == -1:
+            regions[node] = cons
+            return
+        f, thr = t.features[node], t.thresholds[node]
+        walk(t.children_left[node], cons + [(f, True, thr)])
+        walk(t.children_right[node], cons + [(f, False, thr)])
+
+    walk(start, [])
+    return regions
+
+
 def region_label(t, regions, x):
     hits = [nd for nd, cons in regions.items() if all((x[f] <= thr) == is_left for f, is_left, thr in cons)]
     if len(hits) != 1:
@@ -82,6 +97,19 @@ def check_tree(label, name, est, s, X, y, Kmat, qseed, subsets):
         for c in (t.children_left[i], t.children_right[i]):
             if t.depths[c] != t.depths[i] + 1:
                 raise Violation(f"{label} [{name}]: depth of node {c} is {t.depths[c]}, its parent has depth {t.depths[i]}")
+    if t.depths[0] != 0 or len(t) != n_nodes or t.get_depth() != max(t.depths):
+        raise Violation(f"{label} [{name}]: root depth {t.depths[0]}, len(tree)={len(t)}, get_depth()={t.get_depth()} for "
+                        f"{n_nodes} nodes with depths {list(t.depths)}")
+    for i in range(n_nodes):
+        if t.get_depth(i) != t.depths[i]:
+            raise Violation(f"{label} [{name}]: get_depth({i})={t.get_depth(i)} but the node is at depth {t.depths[i]}")
+    for lf in leaves:
+        if t.thresholds[lf] is not None or t.features[lf] is not None or t.gains[lf] != 0 or t.children_right[lf] != -1:
+            raise Violation(f"{label} [{name}]: leaf node {lf} carries split information "
+                            f"(feature {t.features[lf]}, threshold {t.thresholds[lf]}, gain {t.gains[lf]})")
+    kids = sorted([t.children_left[i] for i in internal] + [t.children_right[i] for i in internal])
+    if kids != list(range(1, n_nodes)):
+        raise Violation(f"{label} [{name}]: children ids {kids} are not every non-root node exactly once")
     uniq = np.unique(labels)
     if len(uniq) > s["max_clusters"] or not np.array_equal(uniq, np.arange(len(uniq))):
         raise Violation(f"{label} [{name}]: labels {uniq.tolist()} are not contiguous from 0 within max_clusters={s['max_clusters']}")
@@ -134,6 +162,15 @@ def check_tree(label, name, est, s, X, y, Kmat, qseed, subsets):
             raise Violation(f"{label} [{name}]: point {q.tolist()} is not in exactly one leaf region")
         if gq != want:
             raise Violation(f"{label} [{name}]: predict gives {gq} for {q.tolist()}, the leaf region containing it is labelled {want}")
+    for nd in internal[:4]:
+        # routing started below the root answers for the sub-tree hanging there
+        sub_cons = {lf: cons for lf, cons in leaf_regions_from(t, nd).items()}
+        got_nd = t.predict(Q, nd)
+        for q, gq in zip(Q, got_nd):
+            hits = [lf for lf, cons in sub_cons.items() if all((q[f] <= thr) == is_left for f, is_left, thr in cons)]
+            if len(hits) != 1 or gq != t.target[hits[0]]:
+                raise Violation(f"{label} [{name}]: tree_.predict from node {nd} gives {gq} for {q.tolist()}, the leaf of that "
+                                f"sub-tree containing it is {hits}")
     Qi = np.round(Q[np.all(np.abs(Q) < 1e9, axis=1)]).astype(np.int64)
     if len(Qi):
         for q, gq in zip(Qi, est.predict(Qi)):
